@@ -21,7 +21,7 @@ from .graph import build_paths
 from .report import Verdict
 from .tlc import MachineryError, read_ndjson, run_tlc
 
-EXIT_KINDS = ["acm", "cm", "pusha", "pushs", "pushcm"]
+EXIT_KINDS = ["acm", "cm", "pusha", "pushs", "pushcm", "pusho", "pushp"]   # ... pushed callable object / partial(async def)
 CB_KINDS = ["cba", "cbs", "cbk", "cbp", "cbo"]   # async def / def / keyword-only def / partial(async def) / callable object
 
 
@@ -113,6 +113,15 @@ class World:
         def sexit(et, ev, tb):
             return w.core(e, beh, ev)
 
+        class ObjExit:            # an object whose call returns a coroutine, pushed as an exit callable
+            def __call__(self, et, ev, tb):
+                return aexit(et, ev, tb)
+
+        async def aexit3(_extra, et, ev, tb):
+            return await aexit(et, ev, tb)
+
+        pexit = functools.partial(aexit3, None)
+
         async def acb(a, kw=None):
             if (a, kw) != ("arg", 1):
                 w.args_ok = False
@@ -156,6 +165,10 @@ class World:
                 stack.push(sexit)
             elif ckind == "pushcm":
                 stack.push(ACM())
+            elif ckind == "pusho":
+                stack.push(ObjExit())
+            elif ckind == "pushp":
+                stack.push(pexit)
             elif ckind == "cba":
                 stack.callback(acb, "arg", kw=1)
             elif ckind == "cbk":
@@ -178,6 +191,10 @@ class World:
                 stack.push(sexit)
             elif ckind == "pushcm":
                 stack.push_async_exit(ACM())
+            elif ckind == "pusho":
+                stack.push_async_exit(ObjExit())
+            elif ckind == "pushp":
+                stack.push_async_exit(pexit)
             elif ckind == "cba":
                 stack.push_async_callback(acb, "arg", kw=1)
             elif ckind == "cbk":
@@ -564,7 +581,7 @@ def flavour_dependence(seed):
     A history whose replay fails for some kinds and passes for others depends on the flavour."""
     res = run_tlc("ExitStack", cfg_text(2, 4), outfiles=["edges.ndjson"], timeout=3000)
     paths = build_paths(read_ndjson(res["files"]["edges.ndjson"]), lambda f: f["n"] == 0 and f["nent"] == 0 and f["unw"]["which"] == "none")
-    salts = [0, 1, 2, 3, 4]
+    salts = [0, 1, 2, 3, 4, 5, 6]
     jobs = [(p, s_) for p in paths for s_ in salts]
     bad = {}
     with mp.Pool(min(16, os.cpu_count() or 4)) as pool:
@@ -600,7 +617,7 @@ def check(prop, tier, seed, into=None):
         paths = build_paths(edges, lambda f: f["n"] == 0 and f["nent"] == 0 and f["unw"]["which"] == "none")
         # only complete operations end a replay: keep paths whose last step closes an operation
         tot["paths"] += len(paths)
-        salts = [0, 1, 2] if tier == "quick" else [0, 1, 2, 3, 4]     # entries 1..3 + salts 0..2 reach all five kinds of a class
+        salts = [0, 1, 2, 3, 4] if tier == "quick" else [0, 1, 2, 3, 4, 5, 6]     # entries 1..3 + salts reach all kinds of a class (7 exit kinds, 5 callback kinds)
         jobs = [(p, s) for p in paths for s in salts]
         with mp.Pool(min(16, os.cpu_count() or 4)) as pool:
             for out in pool.imap_unordered(replay_path, jobs, chunksize=max(1, len(jobs) // 256)):
